@@ -2,8 +2,10 @@
 From Verif Require Import Base.Prelude Cluster.Placement Cluster.PlacementProofs Generated.Facts.
 
 Definition copies_now : bool := match placement_copies with Known b => b | Unrecognised _ => false end.
-Lemma C16_facts_ok : placement_copies = Known true /\ placement_shuffle_per_partition = Known true.
-Proof. split; reflexivity. Qed.
+Lemma C16_facts_ok : placement_copies = Known true /\ placement_shuffle_per_partition = Known true /\
+  (* what Create writes into the catalogue entry is that placement, partition by partition *)
+  create_uses_allocator_placement = Known true.
+Proof. repeat split; reflexivity. Qed.
 
 (* validity for every member list without duplicates, every partition count, replication factor and seed *)
 Theorem C16_valid : forall members p r draws, NoDup members ->
